@@ -26,7 +26,36 @@ let wid_name ((k, p) : wid) : string =
     let ((((((c,_),_),_),_),_),_) = p in Printf.sprintf "b%dc%d" (k - 1000) (int_of_n c)
   else Printf.sprintf "k%dp%d" k (idx_of_pph p)
 
-let plist tok = if tok = "-" then [] else Stdlib.List.map (fun t -> n (int_of_string t)) (split_on ',' tok)
+(* prefix ids: the injective numbering of wire prefixes (PipeRaw.pfx_code). The small ids of the
+   abstract ops stand for 10.<p>.0.0/16 (even families) and 2001:db8:<p>::/48 (odd families),
+   as harness/src/engines/pipe.rs prefix_str has it. *)
+let pfx_of_small fam p : BgpModel.pfx =
+  if fam mod 2 = 0 then { BgpModel.p_len = n 16; p_bytes = [n 10; n p] }
+  else { BgpModel.p_len = n 48; p_bytes = [n 0x20; n 0x01; n 0x0d; n 0xb8; n (p lsr 8); n (p land 255)] }
+let pid fam p = PipeRaw.pfx_code (pfx_of_small fam p)
+let plist fam tok = if tok = "-" then [] else Stdlib.List.map (fun t -> pid fam (int_of_string t)) (split_on ',' tok)
+let raw_pfx tok : BgpModel.pfx =
+  match String.split_on_char '/' tok with
+  | [l; h] -> { BgpModel.p_len = n (int_of_string l); p_bytes = C04_util.ns_of_hex h }
+  | _ -> failwith "prefix: <len>/<hex|->"
+
+(* attribute sets: the small numbers of the abstract ops as they are; the numbering of an attribute
+   list from the wire (PipeRaw.attrs_code) as length + FNV-1a of its octets, like engine c04 *)
+let bits_of_n (x : BinNums.coq_N) : bool list =
+  let rec go = function BinNums.Coq_xH -> [true] | BinNums.Coq_xO p -> false :: go p | BinNums.Coq_xI p -> true :: go p in
+  match x with BinNums.N0 -> [] | BinNums.Npos p -> go p
+let bytes_of_code (x : BinNums.coq_N) : int list =
+  let rec take8 acc k v l = if k = 8 then (acc, l) else match l with
+      | b :: r -> take8 (acc + (if b then v else 0)) (k + 1) (2 * v) r
+      | [] -> (acc, []) in
+  let rec go l = match l with
+    | [true] | [] -> []
+    | _ -> let (b, r) = take8 0 0 1 l in b :: go r in
+  go (bits_of_n x)
+let small_n (x : BinNums.coq_N) = Stdlib.List.length (bits_of_n x) <= 30
+let attr_tok (a : BinNums.coq_N) : string =
+  if small_n a then string_of_int (int_of_n a)
+  else let raw = bytes_of_code a in Printf.sprintf "n%dh%08x" (Stdlib.List.length raw) (C04_util.fnv raw)
 
 let group ids id : string =
   let ws = Stdlib.List.filter (fun (_, i) -> i = id) ids in
@@ -46,7 +75,7 @@ let show_update ids (u : RibModel.update) : string =
   | RibModel.UWithdrawBulk l -> "W:[" ^ join "," (uniq (Stdlib.List.map (group ids) l)) ^ "]"
   | RibModel.UPass -> "other-update"
 
-let entry_tok ((w, s), a) = Printf.sprintf "%s=%s%d" (wid_name w) (if s then "A" else "W") (int_of_n a)
+let entry_tok ((w, s), a) = Printf.sprintf "%s=%s%s" (wid_name w) (if s then "A" else "W") (attr_tok a)
 
 let run_case (line : string) : string =
   let w = ref world_init and sw = ref sworld_init in
@@ -56,7 +85,7 @@ let run_case (line : string) : string =
   let do_op toks =
     let i k = int_of_string (Stdlib.List.nth toks k) in
     let t k = Stdlib.List.nth toks k in
-    let upd off = URoutes (n (i off), plist (t (off + 2)), n (i (off + 1)), n (i (off + 3)), plist (t (off + 4))) in
+    let upd off = URoutes (n (i off), plist (i off) (t (off + 2)), n (i (off + 1)), n (i (off + 3)), plist (i (off + 3)) (t (off + 4))) in
     let op : wop = match Stdlib.List.hd toks with
       | "C" -> WConnect (n (i 1))
       | "I" -> WMsg (n (i 1), MInit)
@@ -71,7 +100,12 @@ let run_case (line : string) : string =
       | "O" -> WBgpOpen (n (i 1))
       | "A" -> WBgpUpdate (n (i 1), Some (upd 2))
       | "Z" -> WBgpClose (n (i 1))
-      | "Q" -> WQuery (n (i 1), n (i 2))
+      | "Q" -> WQuery (n (i 1), pid (i 1) (i 2))
+      (* from the wire: RB k i <hex> = the octets of an UPDATE in a Route Monitoring message of peer i;
+         AB b <hex> = the same on BGP session b; QX af <len>/<hex> = query for a prefix in wire form *)
+      | "RB" -> PipeRaw.raw_bmp (n (i 1)) (pph_of (i 2)) (C04_util.ns_of_hex (t 3))
+      | "AB" -> PipeRaw.raw_bgp (n (i 1)) (C04_util.ns_of_hex (t 2))
+      | "QX" -> WQuery (n (i 1), PipeRaw.pfx_code (raw_pfx (t 2)))
       | "M" -> WMetrics (n (i 1))
       | s -> failwith ("bad op " ^ s) in
     let (w', out) = wstep !w op in
@@ -102,7 +136,7 @@ let run_case (line : string) : string =
            let diff = uniq (Stdlib.List.map wid_of_tok
                               (Stdlib.List.filter (fun x -> not (Stdlib.List.mem x sl)) ml
                                @ Stdlib.List.filter (fun x -> not (Stdlib.List.mem x ml)) sl)) in
-           let af = n (i 1) and pfx = n (i 2) in
+           let af = n (i 1) and pfx = (match op with WQuery (_, x) -> x | _ -> n 0) in
            let evs = RibModel.evs_of !hist in
            let k2 = ref false and k3 = ref false and unk = ref false in
            Stdlib.List.iter (fun name ->
